@@ -313,6 +313,9 @@ namespace bloch::runtime {
         Value call(FunctionDeclaration* fn, const std::vector<Value>& args);
         Value lookup(const std::string& name);
         Value stampStatic(Value v, const std::string& declaredClass) const;
+        RuntimeTypeInfo declaredTypeHere(Type* t);
+        Value::Type declaredKind(Type* t);
+        std::string declaredClassName(Type* t);
         bool constructorAccessible(const ConstructorDeclaration* decl,
                                    const RuntimeClass* owner) const;
         void assign(const std::string& name, const Value& v);
